@@ -831,6 +831,12 @@ class CircuitTemplate(AbstractBaseTemplate):
         # reformat edge templates to EdgeIR instances
         #############################################
 
+        # process PopulationTemplate instances and their Connectivity objects (before the ordinary edges are grouped: an
+        # ordinary edge, e.g. from an extrinsic input node, may address a population variable)
+        pop_nodes, pop_edges = {}, []
+        if self.populations or self.connections:
+            pop_nodes, pop_edges = self._apply_populations_and_connections()
+
         # group edges that should be vectorized
         old_edges = self.collect_edges(delay_info=True)
         edge_col = self._group_edges(edges=old_edges)
@@ -927,11 +933,9 @@ class CircuitTemplate(AbstractBaseTemplate):
                                                            source_idx=edge_idx, target_idx=target_idx)
                 edges.append((edge_ir.output, target, edge_dict))
 
-        # process PopulationTemplate instances and their Connectivity objects
-        if self.populations or self.connections:
-            pop_nodes, pop_edges = self._apply_populations_and_connections()
-            nodes.update(pop_nodes)
-            edges.extend(pop_edges)
+        # add the nodes and edges of the populations
+        nodes.update(pop_nodes)
+        edges.extend(pop_edges)
 
         # instantiate an intermediate representation of the circuit template
         self._ir = CircuitIR(label, nodes=nodes, edges=edges, verbose=verbose, step_size_adaptation=adaptive_steps,
